@@ -278,8 +278,10 @@ compatibility branch (tried and dropped: the redact package itself short-cuts
 such values, so none of the formatting properties is stated for them), and a few
 defensive branches. No monitor says anything about those.
 
-The full cross matrix (every seeded change × every check, quick tier) is in
-`seeded/MATRIX.md`.
+The outcome of the last regression run — every seeded change against the check
+of its own property on the final harness, with the number of violation
+observations each catch rests on — is in `seeded/MATRIX.md` (`tools/diag.sh`,
+`tools/mkmatrix.py`).
 """
 p = os.path.join(ROOT, "DESIGN.md")
 s = open(p).read()
